@@ -239,8 +239,8 @@ def script_for(shape: dict) -> Tuple[str, str]:
         lines.append(DECLS[cls])
         lines.append(f"{RECV[cls]}.{meth}({shape['args']})")
     rt_names = sorted({v for v in shape["binding"].values() if _is_rt(v)})
-    pre = [f'{n} = analog_read("A0")' for n in rt_names]
-    return IMPORTS + "\n".join(pre + lines) + "\n", lines[-1]
+    pre = [f'{n} = analog_read("A0")' for n in rt_names] + list(shape.get("pre_lines", []))
+    return IMPORTS + "\n".join(pre + lines + list(shape.get("post_lines", []))) + "\n", lines[-1]
 
 
 def _norm(v: Any) -> Any:
@@ -315,7 +315,13 @@ def evaluate(shape: dict) -> dict:
                 field = renames.get(param, param)
                 if not hasattr(target, field):
                     continue
-                if _is_rt(src_val):
+                if shape.get("odd_param") == param:
+                    # an unusual run-time expression: rejected, or carried into the IR (never replaced by a default)
+                    got_text = str(getattr(target, field))
+                    if not any(tok in got_text for tok in ("rv_mask", "lbl", "__redu_arg_")):
+                        ir_error = f"`{line}`: parameter {param} was given the run-time expression {shape['odd_expr']!r}, IR field {node_cls}.{field} holds {got_text!r}"
+                    continue
+                if _is_rt(src_val) and param not in shape.get("expected", {}):
                     got_text = str(getattr(target, field))
                     import re as _re
                     names_in = set(_re.findall(r"rv_\w+", got_text)) if src_val.startswith("rv_") else {w for w in _re.findall(r"[A-Za-z_]\w*", got_text) if w in VALUES}
@@ -323,8 +329,19 @@ def evaluate(shape: dict) -> dict:
                         ir_error = f"`{line}`: parameter {param} should bind the run-time value {src_val}, IR field {node_cls}.{field} holds {got_text!r}"
                         break
                     continue
+                if param in shape.get("expected", {}):
+                    src_val = shape["expected"][param]
                 want = _norm(pyast.literal_eval(src_val)) if src_val not in ("hit", "OUTPUT", "INPUT", "HIGH", "LOW") else src_val
                 got = _norm(getattr(target, field))
+                if src_val[:1] in "\"'" and isinstance(pyast.literal_eval(src_val), str):
+                    # strings are compared exactly (blanks included)
+                    want = pyast.literal_eval(src_val)
+                    got = getattr(target, field)
+                    if isinstance(got, str) and len(got) >= 2 and got[0] == got[-1] and got[0] in "\"'":
+                        try:
+                            got = pyast.literal_eval(got)
+                        except Exception:  # noqa: BLE001
+                            pass
                 if got != want:
                     ir_error = f"`{line}`: parameter {param} should bind {want!r}, IR field {node_cls}.{field} holds {got!r}"
                     break
@@ -334,15 +351,55 @@ def evaluate(shape: dict) -> dict:
         cname = {"pin_mode": "pinMode", "digital_write": "digitalWrite", "analog_write": "analogWrite", "digital_read": "digitalRead", "analog_read": "analogRead"}[shape["cls"]]
         second = b.get("mode") or b.get("value")
         want_call = f"{cname}({b['pin']}" + (f", {second})" if second else ")")
-        if want_call not in text:
+        if shape.get("odd_param"):
+            if "rv_mask" not in text and "lbl" not in text:
+                ir_error = f"`{line}`: the run-time expression {shape['odd_expr']!r} does not reach the firmware"
+        elif want_call not in text:
             ir_error = f"`{line}`: expected `{want_call}` in the firmware"
     return {"status": "ok", "text": text, "ir_error": ir_error}
 
 
 def _work(shape: dict) -> dict:
+    for earlier in shape.get("after", []):
+        evaluate(earlier)  # same process: whatever the earlier call left behind must not leak into this one
     res = evaluate(shape)
     res["shape"] = shape
     return res
+
+
+REFUSED = ["~rv_mask & 7", 'lbl.count("x")', "rv_mask if rv_mask in (1, 2) else 3", "[rv_mask][0]"]
+SPACED = ['"T 1"', '"T  1"', '" T1"', '"T1 "', '"T1"', '"  "', '" "', '""']
+
+
+def special_shapes(cls: str, meth: str) -> Iterator[dict]:
+    """(a) one numeric argument is an expression the translator cannot express: the call must be rejected;
+    (b) string arguments that differ only in blanks, evaluated one after the other in one process;
+    (c) a list argument given as a variable that is mutated AFTER the call."""
+    base = [sh for sh in shapes(cls, meth) if not sh.get("explicit_default")]
+    if not base:
+        return
+    full = max(base, key=lambda sh: (len(sh["binding"]), -sh["n_pos"]))          # all parameters, keywords
+    fullpos = max(base, key=lambda sh: (len(sh["binding"]), sh["n_pos"]))       # all parameters, as positional as possible
+    for sh in (full, fullpos):
+        for param, val in sh["binding"].items():
+            if _is_number(val) and not (cls == "LCD" and meth == "__init__" and param == "i2c_addr"):
+                for expr in REFUSED:
+                    args = sh["args"].replace(f"{param}={val}", f"{param}={expr}") if f"{param}={val}" in sh["args"] else ", ".join(expr if a.strip() == val else a.strip() for a in sh["args"].split(", "))
+                    if args == sh["args"]:
+                        continue
+                    yield dict(sh, args=args, odd_param=param, odd_expr=expr, pre_lines=['rv_mask = analog_read("A1")', 'lbl = "xx"'], group=sh["group"] + f":odd:{param}:{expr}")
+            if val.startswith('"') and param in ("text", "top", "bottom", "label"):
+                earlier = []
+                for lit in SPACED:
+                    args = sh["args"].replace(val, lit, 1)
+                    cur = dict(sh, args=args, binding=dict(sh["binding"], **{param: lit}), group=sh["group"] + f":spaced:{param}:{lit}", after=list(earlier))
+                    yield cur
+                    earlier = (earlier + [dict(cur, after=[])])[-3:]
+            if val.startswith("["):
+                for post in (["seqv.append(1)"], ["seqv.remove(1)"], ["seqv.append(0)", "seqv.append(1)"]):
+                    args = sh["args"].replace(val, "seqv", 1)
+                    yield dict(sh, args=args, pre_lines=[f"seqv = {val}"], post_lines=post, expected={param: val}, binding=dict(sh["binding"], **{param: "seqv"}), group=sh["group"] + ":listvar:" + post[0])
+
 
 
 def main(tier: str, seed: int, only=None) -> int:
@@ -356,7 +413,7 @@ def main(tier: str, seed: int, only=None) -> int:
             if only and cls not in only:
                 continue
             n0 = len(all_shapes)
-            for shp in shapes(cls, meth):
+            for shp in itertools.chain(shapes(cls, meth), special_shapes(cls, meth) if mode is False else []):
                 if mode and not any(_is_rt(v) for v in shp["binding"].values()):
                     continue
                 if mode == "same" and shp.get("explicit_default"):
